@@ -584,9 +584,83 @@ func c06MultisigCases(yield func(c06Case), thorough bool) {
 	}
 }
 
+// c06CountCases: the key and signature counts of OP_CHECKMULTISIG written in every number form a
+// script can push - wider than 64 bits, wider than 32 bits, negative, negative zero, padded - for
+// m-of-n scripts with valid signatures. A count is a script number: what does not fit the range
+// is a count error (before genesis a number error), never the same count modulo a power of two.
+func c06CountCases(yield func(c06Case), thorough bool) {
+	keys := []keyPair{keyOf(0), keyOf(2)}
+	keyIdx := []int{0, 2}
+	forms := func(v int) (names []string, encs [][]byte) {
+		add := func(n string, b []byte) { names = append(names, n); encs = append(encs, b) }
+		add("plain", nil)
+		add("plus-2^64", []byte{byte(v), 0, 0, 0, 0, 0, 0, 0, 1})
+		add("plus-2^63", []byte{byte(v), 0, 0, 0, 0, 0, 0, 0x80, 0})
+		add("plus-2^32", []byte{byte(v), 0, 0, 0, 1})
+		add("plus-2^31", []byte{byte(v), 0, 0, 0x80, 0})
+		add("plus-2^128", append(append([]byte{byte(v)}, make([]byte, 15)...), 1))
+		add("padded-4", []byte{byte(v), 0, 0, 0})
+		add("padded-2", []byte{byte(v), 0})
+		add("negative", []byte{byte(v) | 0x80})
+		add("minus-2^64", []byte{byte(v), 0, 0, 0, 0, 0, 0, 0, 0x81})
+		return
+	}
+	flagSets := []uint32{0, fForkID, fForkID | sigFlagBits[0], sigFlagBits[3] | sigFlagBits[4]}
+	for n := 0; n <= 2; n++ {
+		for m := 0; m <= n; m++ {
+			nNames, nEncs := forms(n)
+			mNames, mEncs := forms(m)
+			for ni := range nEncs {
+				for mi := range mEncs {
+					if ni == 0 && mi == 0 {
+						continue
+					}
+					numPush := func(v int, enc []byte) []byte {
+						if enc == nil {
+							if v == 0 {
+								return []byte{0x00}
+							}
+							return []byte{byte(0x50 + v)}
+						}
+						return append([]byte{byte(len(enc))}, enc...)
+					}
+					lock := numPush(m, mEncs[mi])
+					for i := 0; i < n; i++ {
+						lock = append(lock, minimalPush(keys[i].comp)...)
+					}
+					lock = append(lock, numPush(n, nEncs[ni])...)
+					for _, tail := range [][]byte{{0xae}, {0xae, 0x91}, {0xaf, 0x51}} {
+						lk := bytesJoin(lock, tail)
+						for _, f0 := range flagSets {
+							for era := 0; era < 2; era++ {
+								f := f0
+								if era == 1 {
+									f |= fGenesis
+								}
+								ht := uint8(0x01)
+								if f&fForkID != 0 {
+									ht = 0x41
+								}
+								base := scriptCase{Lock: lk, Flags: f}
+								rt, amount := base.ctx()
+								u := []byte{0x00}
+								for i := 0; i < m; i++ {
+									u = append(u, minimalPush(cachedSign(keys[i], keyIdx[i], rt, 0, lk, amount, ht, ht&0x40 != 0, "cnt"))...)
+								}
+								yield(c06Case{scriptCase: scriptCase{Unlock: u, Lock: lk, Flags: f}, Op: "CHECKMULTISIG-counts", Sig: fmt.Sprintf("%dof%d", m, n), Key: "all-compressed", HT: ht,
+									Extra: "|n=" + nNames[ni] + "|m=" + mNames[mi]})
+							}
+						}
+					}
+				}
+			}
+		}
+	}
+}
+
 func init() {
 	p := register(&Prop{ID: "C06", Level: "exploration",
-		Rule: "exhaustive product with real ECDSA signatures, every case executed in lockstep against the reference model (CHECKSIG/CHECKMULTISIG written after the node's interpreter, certified on the signature vectors of script_tests.json; digests certified on the sighash vectors): CHECKSIG family: 8 locking-script forms (CHECKSIG, NOT, CHECKSIGVERIFY, OP_CODESEPARATOR before the key / before the opcode / unexecuted / later in the script, P2PKH) x 5 key encodings (compressed, uncompressed, hybrid, truncated, empty) x 17 hash types (12 standard, 5 undefined) x 9 signature kinds (valid, over another tx, by another key, over the other digest algorithm, empty, hash-type byte only, high-S, DER-padded, wrong DER length) x ALL 64 subsets of {STRICTENC, DERSIG, LOW_S, NULLDUMMY, NULLFAIL, SIGHASH_FORKID} x both eras x tx shapes (1 in/1 out, no outputs; thorough: 2 inputs); signature-in-script (exact push and substring); valid signatures with a CHOSEN s (n/2-1, n/2, n/2+1, 2^255-1, 2^255; the public key is recovered from the signature) against the LOW_S rule; signature checks in scripts that continue after a top-level OP_RETURN with 0..4 raw bytes (script code with a data tail), and signature checks reached after an UNLOCKING script that ends through a top-level OP_RETURN; for CHECKSIG and P2PKH also with the transaction's checked input already recording ANOTHER spent output (other value and script, as left by FromUTXOs or an earlier Execute): a valid signature, and one made for the recorded value instead of the spent one. CHECKMULTISIG family: every m-of-n with 0<=m<=n<=3, every m-tuple over the slot alphabet {valid by key j for every j, empty, type-only, other tx, high-S, a single byte that occurs inside a public key} (hence every order), dummy {empty, 01}, key mutations, 3 opcode forms, uniform and mixed per-signature hash types, 2/5 hash types, 64 flag subsets x both eras. Oracle: verdict and every stack snapshot equal the reference. distinct_nontrivial = distinct (script pair, flags) executions",
+		Rule: "exhaustive product with real ECDSA signatures, every case executed in lockstep against the reference model (CHECKSIG/CHECKMULTISIG written after the node's interpreter, certified on the signature vectors of script_tests.json; digests certified on the sighash vectors): CHECKSIG family: 8 locking-script forms (CHECKSIG, NOT, CHECKSIGVERIFY, OP_CODESEPARATOR before the key / before the opcode / unexecuted / later in the script, P2PKH) x 5 key encodings (compressed, uncompressed, hybrid, truncated, empty) x 17 hash types (12 standard, 5 undefined) x 9 signature kinds (valid, over another tx, by another key, over the other digest algorithm, empty, hash-type byte only, high-S, DER-padded, wrong DER length) x ALL 64 subsets of {STRICTENC, DERSIG, LOW_S, NULLDUMMY, NULLFAIL, SIGHASH_FORKID} x both eras x tx shapes (1 in/1 out, no outputs; thorough: 2 inputs); signature-in-script (exact push and substring); valid signatures with a CHOSEN s (n/2-1, n/2, n/2+1, 2^255-1, 2^255; the public key is recovered from the signature) against the LOW_S rule; signature checks in scripts that continue after a top-level OP_RETURN with 0..4 raw bytes (script code with a data tail), and signature checks reached after an UNLOCKING script that ends through a top-level OP_RETURN; for CHECKSIG and P2PKH also with the transaction's checked input already recording ANOTHER spent output (other value and script, as left by FromUTXOs or an earlier Execute): a valid signature, and one made for the recorded value instead of the spent one. CHECKMULTISIG family: every m-of-n with 0<=m<=n<=3, every m-tuple over the slot alphabet {valid by key j for every j, empty, type-only, other tx, high-S, a single byte that occurs inside a public key} (hence every order), dummy {empty, 01}, key mutations, 3 opcode forms, uniform and mixed per-signature hash types, 2/5 hash types, 64 flag subsets x both eras; key and signature counts of every m-of-n with n<=2 in ten number forms (plus 2^31, 2^32, 2^63, 2^64, 2^128, minus 2^64, negative, padded) x 3 opcode forms x 4 flag sets x both eras. Oracle: verdict and every stack snapshot equal the reference. distinct_nontrivial = distinct (script pair, flags) executions",
 	})
 	sp := NewSpace(p, "sigops", c06Check)
 	p.Run = func(r *rep.Run, thorough bool) {
@@ -617,6 +691,7 @@ func init() {
 		s.Each(r, func(yield func(c06Case)) { c06ChosenSCases(yield, thorough) })
 		n1 := r.Evals()
 		s.Each(r, func(yield func(c06Case)) { c06MultisigCases(yield, thorough) })
+		s.Each(r, func(yield func(c06Case)) { c06CountCases(yield, thorough) })
 		r.Note("checksig_cases", n1)
 		r.Note("checkmultisig_cases", r.Evals()-n1)
 		r.Note("accepted_executions", accepted)
